@@ -353,6 +353,18 @@ class Interp(object):
         A = T.raw[:, T.chmap.astype(np.int64)].astype(np.float64)
         require(wav.shape == (len(ids), nsw, chans.shape[1]), 'store waveform shape',
                 key='store-shape', observed=wav.shape, expected=(len(ids), nsw, chans.shape[1]))
+        # the same waveforms through the model's accessor (all stored spikes of all templates in
+        # one request, all channels): stored channels as stored, the others zero
+        allch = np.arange(A.shape[1])
+        got = np.asarray(must_return('get_waveforms (stored spikes, all channels)', m.get_waveforms,
+                                     np.array(ids, dtype=np.int64), allch))
+        expw = np.zeros((len(ids), nsw, A.shape[1]), dtype=wav.dtype)
+        for k in range(len(ids)):
+            for j, c in enumerate(chans[k]):
+                if c != -1:
+                    expw[k, :, int(c)] = wav[k, :, j]
+        same_array('get_waveforms(stored spikes) vs the store files', got, expw,
+                   key='store-accessor', dtype=False)
         n = A.shape[0]
         for k, i in enumerate(ids):
             for j, c in enumerate(chans[k]):
